@@ -499,6 +499,66 @@ def check_case(op, args):
     raise KeyError(op)
 
 
+def check_compress(rng, kind, npol, ns, ni, nm, mode, reduce_):
+    """compress(mode, auto_reduce_npol) against the plain re-indexing C[i*P + p, j*P + q] = M[p, q, (mode), i, j] - scattered and incident
+    directions need not be equally many"""
+    L = lib()
+    m = rand_sm(rng, kind, npol, ns, nm, ni)
+    d = dense_of_sm(m)
+    if kind in ("d5", "e5"):
+        d = d[:, :, mode]
+    if npol == 3 and reduce_ and mode == 0:
+        d = d[:2, :2]
+    P = d.shape[0]
+    req = np.zeros((d.shape[2] * P, d.shape[3] * P))
+    for p_ in range(P):
+        for q_ in range(P):
+            req[p_::P, q_::P] = d[p_, q_]
+    try:
+        got = m.compress(mode=mode, auto_reduce_npol=reduce_)
+    except NotImplementedError:
+        return None
+    got = compressed_dense(got)
+    if got.shape != req.shape or not np.allclose(got, req, rtol=1e-13, atol=1e-13):
+        return (f"smrt_matrix:compress:{'rectangular' if ns != ni else 'square'}", f"compress(mode={mode}, auto_reduce_npol={reduce_}) of a {kind} container "
+                f"({npol} polarisations, {ns} x {ni} directions) is not the (direction, polarisation) re-indexing", dict(shape=list(got.shape)),
+                dict(shape=list(req.shape)))
+    return None
+
+
+def check_nyquist(npol, m_max):
+    """exactly 2 m_max samples cannot resolve mode m_max: refused, or if answered, answered exactly"""
+    L = lib()
+    A = np.zeros((npol, npol, m_max + 1, 1, 1))
+    A[:, :, m_max] = 0.7
+    A[0, 0, 0] = 0.3
+    odd = np.zeros((npol, npol), dtype=bool)
+    if npol == 3:
+        odd[0:2, 2] = True; odd[2, 0:2] = True
+
+    def fn(dphi):
+        dphi = np.atleast_1d(dphi)
+        n = np.arange(m_max + 1)
+        p = np.einsum("pqnij,nk->pqkij", A, np.cos(np.outer(n, dphi)))
+        po = np.einsum("pqnij,nk->pqkij", A, np.sin(np.outer(n, dphi)))
+        p[odd] = po[odd]
+        return L.smrt_matrix(p)
+    try:
+        got = np.asarray(L.generic_ft_even_matrix(fn, m_max, nsamples=2 * m_max).values)
+    except (AssertionError, ValueError, Exception) as e:  # noqa: a refusal of an under-sampled request is the right answer
+        from smrt.core.error import SMRTError
+        if isinstance(e, (AssertionError, ValueError, SMRTError)):
+            return None
+        raise
+    req = A.copy()
+    if npol == 3:
+        req[0:2, 2] = -req[0:2, 2]
+    if got.shape != req.shape or not np.allclose(got, req, atol=1e-11):
+        return ("fourier:undersampled", f"generic_ft_even_matrix(m_max={m_max}, nsamples={2 * m_max}) answers an under-sampled request with wrong "
+                f"coefficients for mode {m_max}", float(np.abs(got - req).max()) if got.shape == req.shape else list(got.shape), "a refusal, or exact coefficients")
+    return None
+
+
 def oracle(ctx, hints, effort):
     """the property on the implementation: operator result = equivalent dense computation"""
     rng = ctx.np
@@ -551,6 +611,24 @@ def oracle(ctx, hints, effort):
             findings.append(Finding("fourier", "generic_ft_even_matrix does not return the coefficients of a band-limited matrix",
                                     {"op": "fourier", "npol": npol, "nsamples": N, "m_max": m_max, "A": A.tolist(), "deg": deg},
                                     float(np.abs(got - req).max()), "max |coefficient error| <= 1e-11"))
+    for npol in (2, 3):
+        for m_max in (1, 2, 3, 4):
+            evals += 1
+            r = check_nyquist(npol, m_max)
+            if r is not None:
+                findings.append(Finding(r[0], r[1], {"op": "nyquist", "npol": npol, "m_max": m_max}, r[2], r[3]))
+    for kind in ("d4", "d5", "e4", "e5"):
+        for npol in (2, 3):
+            for ns in range(1, 7 if effort != "routine" else 5):
+                for ni in (range(1, 7 if effort != "routine" else 5) if kind in ("e4", "e5") else [ns]):
+                    for mode in ((0, 1, 2) if kind in ("d5", "e5") else (None, 0)):
+                        for red in (False, True):
+                            evals += 1
+                            sd = int(rng.integers(0, 2**31))
+                            r = check_compress(np.random.default_rng(sd), kind, npol, ns, ni, 3, mode, red)
+                            if r is not None:
+                                findings.append(Finding(r[0], r[1], {"op": "compress", "kind": kind, "npol": npol, "ns": ns, "ni": ni, "mode": mode,
+                                                                     "reduce": red, "seed": sd}, r[2], r[3]))
     for n_ in range(1, 8 if effort == "routine" else 13):
         for m_ in range(1, 8 if effort == "routine" else 13):
             evals += 1
@@ -578,6 +656,12 @@ def replay(inp, rp=None):
             if r:
                 return Finding(r[0], r[1], inp, r[1], r[2])
         return None
+    if inp.get("op") == "nyquist":
+        r = check_nyquist(inp["npol"], inp["m_max"])
+        return Finding(r[0], r[1], inp, r[2], r[3]) if r else None
+    if inp.get("op") == "compress":
+        r = check_compress(np.random.default_rng(inp["seed"]), inp["kind"], inp["npol"], inp["ns"], inp["ni"], 3, inp["mode"], inp["reduce"])
+        return Finding(r[0], r[1], inp, r[2], r[3]) if r else None
     if inp.get("op") == "band":
         r = check_band_solution(inp["density"], inp["nmax"], inp["active"])
         return Finding(r[0], r[0], inp, r[1], r[2]) if r else None
